@@ -153,7 +153,7 @@ def make_cases(rng, _n):
 
 
 def run(ck):
-    ck.prove(["AsModel.Theorems.C12"])
+    ck.prove(["AsModel.Theorems.C12", "AsModel.Theorems.C12Parse"])
     ck.build_harness("inproc")
     res = t2.run(ck)
     t2_mm = t2.record(ck, res, ("body",), "native destructuring patterns")
